@@ -28,7 +28,11 @@ def gen_cases(rng, tier):
     keys = [{"arg": a, "content": {"pat": "41", "len": 10 + k}} for k, a in enumerate(["bas", "BIN", "txt", "Bat", "auto", "bas.bas", "auto.bat", "AUTO.txt", "bat.auto", "bin.", "x.bas,a"])]
     for is_fd in (True, False):
         cases.append({"is_fd": is_fd, "verbose": is_fd, "sources": keys})
-    return cases, {"random": n, "rule keys as whole names": 2}
+    # more files than a catalogue holds: the 113th is refused on side 0 (catalogue full) and goes to side 1
+    many = [{"arg": "f%03d.%s" % (k, ["dat", "bas", "txt", "bin"][k % 4]), "content": {"pat": "41", "len": 1 + (k % 3) * 300}} for k in range(114)]
+    for is_fd in (True, False):
+        cases.append({"is_fd": is_fd, "verbose": False, "sources": many + [{"arg": "last.bas,a", "content": {"pat": "42", "len": 2041}}]})
+    return cases, {"random": n, "rule keys as whole names": 2, "114 files": 2}
 
 
 def run_case(case, ctx):
